@@ -357,6 +357,11 @@ pub enum ConfigError {
     /// `enabled` to be present whenever the block is — that single field
     /// disambiguates "preserve current" / "explicit disable" / "enable" on
     /// hot-reconfig partial updates.
+    #[error("invalid health check for cluster {cluster_id}: {reason}")]
+    InvalidHealthCheck {
+        cluster_id: String,
+        reason: &'static str,
+    },
     #[error("invalid HSTS config at {0}: `enabled` is required when an [hsts] block is present")]
     HstsEnabledRequired(String),
     /// An `[hsts]` block on an HTTP-only listener or frontend. RFC 6797
@@ -2171,6 +2176,16 @@ impl FileClusterConfig {
         // PRE: every frontend that converts cleanly must survive into the built
         // cluster — no frontend is silently dropped during conversion.
         let requested_frontend_count = self.frontends.len();
+        // reject an invalid health check at load time: the state refuses the
+        // whole AddCluster otherwise, leaving frontends and backends orphaned
+        if let Some(health_check) = self.health_check.as_ref() {
+            validate_health_check_config(&health_check.to_proto()).map_err(|reason| {
+                ConfigError::InvalidHealthCheck {
+                    cluster_id: cluster_id.to_owned(),
+                    reason,
+                }
+            })?;
+        }
         match self.protocol {
             FileClusterProtocolConfig::Tcp => {
                 let mut has_expect_proxy = None;
